@@ -22,7 +22,8 @@ RULE = ("kinds: gen (PlatePermutation / SampleSegregating / Pairwise through gen
         "larger universe (20 %: the hold-out's Screen(...) calls then run the encoders' existing-mapping branch); hold-out on plates of "
         "9-30 experiments with 0.1, 0.3, 0.7, 1/3, 0.05 ... and the count judged against the EXACT rational ceiling (the float product "
         "may round down to an integer: 0.1 x 10 -> 1 accepted); purity: after every operation the caller's screen is re-read and must be "
-        "unchanged; kind cliprep: prepare_retrospective_simulation.main with --plate-generator / --plate-smoother (every shipped class, "
+        "unchanged; kind cliprep: prepare_retrospective_simulation.main with --plate-generator / --plate-smoother (every shipped class, incl. "
+        "parameter values with which the smoother drops every remaining unobserved plate next to an observed initial plate, "
         "parameters through --*-param) and multiset conservation of (sample, treatments, doses, value) between the filtered input and "
         "training + test (equality when no smoother).")
 THEOREMS = {
@@ -193,6 +194,10 @@ def gen(rng, tier):
                                    ["NPlatePerCellLineSmoother", dict(min_n_cell_line_plates=rng.choice([1, 2]))],
                                    ["BatchieEnsemblePlateSmoother", dict(min_size=rng.choice([2, 4]), n_iterations=1, min_n_cell_line_plates=rng.choice([1, 2]))]])
         yield d
+    for i in range(8 * k):    # a smoother parameter that drops EVERY remaining unobserved plate, next to an observed initial plate
+        yield dict(kind="cliprep", screen=L.gen_screen(rng, all_observed=True, style=rng.choice(["one_sample_plates", "mixed", "many_plates"])),
+                   fraction_text=rng.choice(["0.1", "0.25", "0.5", "1"]), init=True, seed=rng.randrange(10 ** 6), pgen=None,
+                   psm=[["FixedSizeSmoother", dict(plate_size=500)], ["NPlatePerCellLineSmoother", dict(min_n_cell_line_plates=50)]][i % 2])
 
 
 def _run_cliprep(desc):
